@@ -226,7 +226,31 @@ def check(ctx):
             ok = lib.originates_from_arg(nf, ag["ops"][ag["fields"].index("id")], 1)
         ctx.check(ok, "C06.e", "RevokeToken::new_from:built-from-bundle-reactor-types", "%s:%d" % (nf.file, nf.line),
                   "token = (get_reactor_types(triggers), sys_command)", "RevokeToken::new_from does not take its reactor types from the bundle or its id from the parameter")
+        # the token lists exactly what the bundle reports: nothing may edit the collected list on its way into the token
+        # (registration pushes one handle per bundle member and each revoke_* removes one per token entry)
+        grt_b = [b for b, t, fr in nf.iter_calls() if fr and lib.tail(mir.fn_name(fr), 1) == "get_reactor_types"]
+        edits = []
+        READ_ONLY = ("as_slice", "deref", "len", "iter", "into", "from", "as_ref", "borrow", "is_empty", "clone", "to_vec", "into_vec", "into_boxed_slice")
+        for b, t, fr in nf.iter_calls():
+            if fr is None or b in grt_b or not t["args"]:
+                continue
+            if any(lib.originates_from_call(nf, a, g0) for a in t["args"][:1] for g0 in grt_b):
+                if lib.tail(mir.fn_name(fr), 1) not in READ_ONLY:
+                    edits.append((nf.loc(b), mir.fn_name(fr)))
+        ctx.check(bool(grt_b) and not edits, "C06.e", "RevokeToken::new_from:token-lists-every-bundle-member", "%s:%d" % (nf.file, nf.line),
+                  "the collected reactor types reach the token unedited", "the list of reactor types is edited before it goes into the token (%s): registration still stores one handle per bundle member, so some are never revoked" % edits)
         g = A.free_fn(prog, "get_reactor_types")
+        ctx.touch(g)
+        okg = False
+        for c in prog.closures_of(g):
+            ps = [b for b, t, fr in c.iter_calls() if fr and lib.tail(mir.fn_name(fr), 1) == "push" and lib.originates_from_arg(c, t["args"][1], 2)]
+            cnt, _, _ = lib.event_counts(c, ps)
+            others = [mir.fn_name(fr) for b, t, fr in c.iter_calls() if fr and b not in ps and lib.tail(mir.fn_name(fr), 1) not in ("deref_mut", "deref")]
+            if cnt == {1} and not others:
+                okg = True
+        gedits = [mir.fn_name(fr) for b, t, fr in g.iter_calls() if fr and lib.tail(mir.fn_name(fr), 1) in ("dedup", "dedup_by", "dedup_by_key", "retain", "truncate", "pop", "remove", "swap_remove", "sort", "clear", "drain")]
+        ctx.check(okg and not gedits, "C06.e", "get_reactor_types:one-entry-per-bundle-member", "%s:%d" % (g.file, g.line),
+                  "the collector pushes every reported reactor type exactly once and nothing edits the list", "get_reactor_types does not record exactly one entry per bundle member (%s)" % gedits)
         ctx.check(bool(g.calls_named(lambda n: lib.tail(n, 1) == "collect_reactor_types")), "C06.e", "get_reactor_types:collects-from-bundle",
                   "%s:%d" % (g.file, g.line), "", "get_reactor_types does not traverse the bundle")
         w = A.method(prog, "ReactCommands", "with")
